@@ -2,6 +2,7 @@
 import json, os, re
 import re
 from rulelib import *
+from facts import op_int, op_local
 import opsum
 
 THOROUGH_CFGS = ('min_none', 'min_rten', 'min_onnx')   # reduced-feature builds of the rten crate (thorough tier)
@@ -151,6 +152,24 @@ def run(ctx):
         if kr == 0 or ki == 0:
             continue      # the work is not in module-local kernels (delegating / closure-based operators): not judged
         nk += 1
+        if bi and not br and o.short not in BYPASS_OK:
+            # a bypass taken only for an empty tensor is the identity whatever the kernel does: not judged
+            ks_ = set(c.bb for c in fi.calls() if (c.callee or '').startswith(mod) and ' as rten::operator::Operator>' not in (c.callee or ''))
+            errs_ = set(bb for (bb, j, kind, payload, pl) in fi.defs().get(0, []) if kind == 'rv' and payload[0] == 'agg' and payload[3] == 'Err') | \
+                set(c.bb for c in fi.calls() if 'from_residual' in (c.callee or ''))
+            reach_ = fi.reach_from(0, avoid=ks_ | errs_)
+            ok_defs = [bb for (bb, j, kind, payload, pl) in fi.defs().get(0, []) if bb in reach_]
+            def empty_guard(bb):
+                for g in fi.guards(bb):
+                    cd, t = unwrap_not(g.cond(), g.truth())
+                    if cd[0] == 'call' and t is True and re.search(r'::is_empty$', cd[1].callee or ''):
+                        return True
+                for (op, a, b, g) in normalized_cmps(fi, bb):
+                    if op == 'Eq' and op_int(b) == 0 and any(x[0] == 'call' and re.search(r'::len$', x[1] or '') for x in fi.origins(a)):
+                        return True
+                return False
+            if ok_defs and all(empty_guard(bb) for bb in ok_defs):
+                bi = False
         ok = br or not bi or o.short in BYPASS_OK
         ctx.inst(R, o.short, ok, ('reviewed: ' + BYPASS_OK[o.short]) if (bi and not br and o.short in BYPASS_OK) else
                  'run_in_place has no Ok path that skips the operator\'s kernels unless run has one too' if ok else
